@@ -25,6 +25,11 @@ def run_case(case, fake, mod):
         cur = {"d": 0.0}
 
         class A(Agent):
+            def setup(self):
+                sd = case.get("setup_dur")
+                if sd:
+                    fake.now += sd[0] / sd[1]   # setting the components up takes real time: it is not part of the first interval
+
             def step(self, observation):
                 starts.append(Fraction(tc.perf_counter()))
                 fake.now += cur["d"]          # the step body takes d of real time
